@@ -24,6 +24,7 @@ RULE = (
     "small prime groups with key_length >= / == prime size}, private_key_length). distinct = digest of (all key material); non-trivial = "
     "some value among {shared secret, public value, x, y, private key} has a leading zero byte, or the group is not RFC 5114, or the "
     "hash/agreement pair differs from the Windows vector's use (counted only when at least one of these holds)"
+    " Also: nonce-mode envelopes in the five shapes A-E (L2 <31/=31 x L1 key x L2 key present/absent); every third case keeps root key id and position of the previous one with a new seed; if the library does not draw through os.urandom the reference is recomputed from the emitted public value."
 )
 ASSUMPTIONS = [
     "independent implementation: hashlib/hmac + Python integers + pure-Python P-256/P-384 (calibrated each run; the full reference decrypts the 12 public-key Windows blobs)",
